@@ -474,6 +474,16 @@ static void generate_minimal_hash(std::vector<std::string> str, Port_Matcher &pm
         return;
     }
     pm.assoc = find_assoc(str, pm.pos);
+    {
+        //the association search only minimizes collisions: fall back to the
+        //linear lookup if some ports would still share a slot
+        auto hashed = do_hash(str, pm.pos, pm.assoc);
+        if(count_dups(hashed) != 0) {
+            fprintf(stderr, "rtosc: Failed to generate minimal hash\n");
+            pm.pos.clear();
+            return;
+        }
+    }
     pm.remap = find_remap(str, pm.pos, pm.assoc);
 }
 
